@@ -225,6 +225,87 @@ def cross_inits():
         (E([], [], None, None, 'custom'), 'cross:attrs-custom-path-absent'),
     ]
 
+# ---- look-alike family: OTHER tools / sections whose names merely resemble nbdime's own ('nbdime', 'jupyternotebook').
+# A default-tool setting such as merge.tool=nbdime-wrapper points at another tool exactly as merge.tool=meld does; the grid
+# above only ever uses names that share nothing with 'nbdime', so a guard that compares by substring, prefix, pattern or
+# case-insensitively is indistinguishable from the exact comparison there.
+LOOKALIKE_FIXED = ['nbdime-wrapper', 'my_nbdime', 'xnbdimex', 'nbdime2', 'NBDIME', 'Nbdime', 'nbdim', 'dime',
+                   'nbdime.sh', '/opt/tools/nbdime', 'nbdime nbdime']
+LOOKALIKE_SECTIONS = [
+    ['diff.jupyternotebook2.command', 'my-nbdiff'], ['diff.jupyternotebook2.textconv', 'cat'],
+    ['diff.jupyter.command', 'git-nbdiffdriver diff'],
+    ['merge.jupyternotebook-old.driver', 'old-nbmerge %O %A %B'], ['merge.jupyternotebook-old.name', 'previous notebook merge driver'],
+    ['merge.jupyter.driver', 'git-nbmergedriver merge %O %A %B %L %P'],
+    ['difftool.nbdime2.cmd', 'nbdime2 "$LOCAL" "$REMOTE"'], ['difftool.nbdim.cmd', 'nbdim "$LOCAL" "$REMOTE"'],
+    ['mergetool.nbdime-wrapper.cmd', 'nbdime-wrapper "$BASE" "$LOCAL" "$REMOTE" "$MERGED"'], ['mergetool.nbdime-wrapper.trustexitcode', 'true'],
+    ['mergetool.my_nbdime.cmd', 'my_nbdime "$MERGED"'],
+]
+
+def lookalike_names(r, n):
+    """the fixed look-alikes plus n drawn ones: 'nbdime' with something in front / behind / both, with letters in the
+    other case, or a proper piece of it -- never 'nbdime' itself"""
+    core_, alpha = 'nbdime', 'abcxyz0189'
+    out = list(LOOKALIKE_FIXED)
+    glue = ['', '-', '_', '.', '/']
+    def word(): return ''.join(r.choice(alpha) for _ in range(r.choice([1, 2, 4])))
+    while len(out) < len(LOOKALIKE_FIXED) + n:
+        form = r.choice(['pre', 'post', 'both', 'case', 'piece'])
+        if form == 'pre': s = word() + r.choice(glue) + core_
+        elif form == 'post': s = core_ + r.choice(glue) + word()
+        elif form == 'both': s = word() + r.choice(glue) + core_ + r.choice(glue) + word()
+        elif form == 'case': s = ''.join(ch.upper() if r.random() < 0.5 else ch for ch in core_)
+        else:
+            i = r.randrange(0, len(core_) - 2); j = r.randrange(i + 3, len(core_) + 1); s = core_[i:j]
+        if s != core_ and s not in out: out.append(s)
+    return out
+
+def lookalike_inits(r, n_drawn):
+    """(init, name, scopes whose commands are of interest)"""
+    out = []
+    names = lookalike_names(r, n_drawn)
+    atts = list(ATT_VARIANTS.items())
+    off = r.randrange(15)
+    def tool_cfg(mt, gt, pr):
+        kv = []
+        if mt is not None:
+            kv.append(['merge.tool', mt])
+            if mt == mt.lower(): kv.append(['mergetool.%s.cmd' % mt, '%s "$BASE" "$LOCAL" "$REMOTE" "$MERGED"' % mt])
+        if gt is not None:
+            kv.append(['diff.guitool', gt])
+            if gt == gt.lower(): kv.append(['difftool.%s.cmd' % gt, '%s "$LOCAL" "$REMOTE"' % gt])
+        if pr: kv += [['difftool.prompt', pr], ['mergetool.prompt', pr]]
+        return kv
+    for i, nm in enumerate(names):
+        other = names[(i + 3) % len(names)]
+        for j, sc in enumerate(SCOPES):
+            osc = 'global' if sc == 'local' else 'local'
+            an, at = atts[(i + j) % len(atts)]
+            pr = (None, 'true', 'false')[(i + j) % 3]
+            # the same look-alike as default of both tools / of one tool, the other tool pointing at nbdime or at another look-alike
+            rot = [(nm, other), (nm, 'nbdime'), ('nbdime', nm), (nm, None), (None, nm)][(i + j + off) % 5]
+            variants = [(nm, nm), rot] if i < len(LOOKALIKE_FIXED) else [rot]
+            for mt, gt in variants:
+                out.append(({'cfg': {sc: tool_cfg(mt, gt, pr), osc: []}, 'att': {sc: at, osc: None}, 'attrloc': 'xdg'},
+                            'lookalike:%s:mt=%s:gt=%s:pr=%s:att=%s' % (sc, mt, gt, pr, an), [sc]))
+    # look-alike in one scope, nbdime itself (or nothing but nbdime's own registration) in the other
+    for i, nm in enumerate(names[:len(LOOKALIKE_FIXED)]):
+        if (i + off) % 3: continue
+        for sc in SCOPES:
+            osc = 'global' if sc == 'local' else 'local'
+            out.append(({'cfg': {sc: tool_cfg(nm, nm, None), osc: tool_cfg('nbdime', 'nbdime', 'false')}, 'att': {sc: None, osc: None}, 'attrloc': 'xdg'},
+                        'lookalike-cross:%s=%s:%s=nbdime' % (sc, nm, osc), SCOPES))
+    # foreign sections that resemble nbdime's own sections, next to nbdime's real ones
+    drv = [['diff.jupyternotebook.command', 'git-nbdiffdriver diff'], ['merge.jupyternotebook.driver', 'git-nbmergedriver merge %O %A %B %L %P'],
+           ['merge.jupyternotebook.name', 'jupyter notebook merge driver'], ['difftool.nbdime.cmd', 'git-nbdifftool diff "$LOCAL" "$REMOTE" "$BASE"'],
+           ['mergetool.nbdime.cmd', 'git-nbmergetool merge "$BASE" "$LOCAL" "$REMOTE" "$MERGED"']]
+    for sc in SCOPES:
+        osc = 'global' if sc == 'local' else 'local'
+        out.append(({'cfg': {sc: list(LOOKALIKE_SECTIONS), osc: []}, 'att': {sc: ATT_VARIANTS['unrelated'], osc: None}, 'attrloc': 'xdg'},
+                    'lookalike-sections:%s' % sc, [sc]))
+        out.append(({'cfg': {sc: LOOKALIKE_SECTIONS + drv + [['merge.tool', 'nbdime-wrapper'], ['diff.guitool', 'nbdime2']], osc: list(LOOKALIKE_SECTIONS)},
+                     'att': {sc: ATT_VARIANTS['nbdime'], osc: None}, 'attrloc': 'xdg'}, 'lookalike-sections-with-own:%s' % sc, SCOPES))
+    return out
+
 def single_commands(scopes):
     out = []
     for sc in scopes:
@@ -276,6 +357,19 @@ def gen_cases(chk, tier):
     for _ in range(nsub):
         init = r.choice(pool)
         cases.append(mk_case(init, [r.choice(allc) for _ in range(r.choice([1, 2]))], 'cli-subprocess', mode='subproc'))
+    # look-alike names (drawn after everything else, so that the cases above are the same as without this family)
+    nd, nseq, nlsub = (4, 120, 6) if tier == 'quick' else (12, 1500, 30)
+    look = lookalike_inits(r, nd)
+    for init, name, scs in look:
+        for c in single_commands(scs):
+            if name.startswith('lookalike-sections') or c['tool'] not in DRIVER_ATTR:
+                cases.append(mk_case(init, [c], 'lookalike-x-1'))
+    lpool = [l[0] for l in look]
+    toolc = [c for c in allc if c['tool'] not in DRIVER_ATTR]
+    for _ in range(nseq):
+        cases.append(mk_case(r.choice(lpool), [r.choice(toolc) for _ in range(r.choice([2, 3]))], 'lookalike-x-seq'))
+    for _ in range(nlsub):
+        cases.append(mk_case(r.choice(lpool), [r.choice(toolc) for _ in range(r.choice([1, 2]))], 'lookalike-cli-subprocess', mode='subproc'))
     return cases
 
 # ------------------------------------------------------------------ T1: the Coq model on the same transitions
@@ -529,7 +623,9 @@ def run(tier, seed):
     chk.cov.update({
         'evaluations': len(cases), 'distinct_nontrivial': len(nontrivial),
         'rule': 'a case = initial configuration (grid: merge.tool and diff.guitool unset/nbdime/other, prompts unset/true/false, attributes absent/unrelated/unrelated '
-                'without final newline/nbdime lines/diff line only, repository or global scope; plus both-scope and other-attributes-location configurations) '
+                'without final newline/nbdime lines/diff line only, repository or global scope; plus both-scope and other-attributes-location configurations; '
+                'plus look-alike configurations: merge.tool / diff.guitool naming ANOTHER tool whose name resembles nbdime (nbdime-wrapper, my_nbdime, NBDIME, nbdim, drawn prefix/suffix/case/piece variants), '
+                'in one scope or against nbdime in the other scope, and foreign sections resembling nbdime\'s own (diff.jupyternotebook2, mergetool.nbdime-wrapper, ...)) '
                 'x a sequence of 1-%d commands of {per driver/tool, config-git} x {enable, disable} x {repo, --global} x {--set-default}, every enable followed by its repetition; '
                 'run through nbdime\'s real main() against real git in a sandbox.  Non-trivial = some command of the sequence changed what git reports; distinct by (configuration, sequence, mode).' % (3 if tier == 'quick' else 4),
         'input_distribution': hist, 'commands_by_kind': by_cmd, 'command_executions': steps,
